@@ -41,6 +41,8 @@ type SW struct {
 	ParThreshold uint64
 	// Metrics: the Store is built with its metrics on (configuration knob)
 	Metrics bool
+	// Prefix is the datastore namespace of the Store: "/headers" unless WithStorePrefix says otherwise
+	Prefix string
 }
 
 func newSW(s *core.Sim, park bool) *SW {
@@ -52,6 +54,10 @@ func newSW(s *core.Sim, park bool) *SW {
 	}
 	w.Flav = core.Pick(s.Tape, "flavour", []string{"plain", "ctx", "snap"})
 	w.Metrics = s.Tape.Coin("store-metrics", 1, 3)
+	w.Prefix = "/headers"
+	if s.Tape.Coin("custom-store-prefix", 1, 4) {
+		w.Prefix = "/hdr-x" // configuration knob: WithStorePrefix
+	}
 	first := core.Pick(s.Tape, "first", []uint64{1, 1, 7, 1000})
 	w.Ch = simhdr.NewChain("sim-chain", first, time.Now().Add(-1000*time.Hour), 3*time.Second)
 	w.Disk = simdisk.New("d0", s)
@@ -78,7 +84,19 @@ func (w *SW) lowerParallelThreshold() {
 }
 
 func (w *SW) cfg() string {
-	return fmt.Sprintf("batch=%d cache=%d icache=%d flav=%s first=%d parthr=%d", w.P.WriteBatchSize, w.P.StoreCacheSize, w.P.IndexCacheSize, w.Flav, w.Ch.First, w.ParThreshold)
+	return fmt.Sprintf("batch=%d cache=%d icache=%d flav=%s first=%d parthr=%d prefix=%s", w.P.WriteBatchSize, w.P.StoreCacheSize, w.P.IndexCacheSize, w.Flav, w.Ch.First, w.ParThreshold, w.Prefix)
+}
+
+// storeOpts are the options every Store of this run is built with.
+func (w *SW) storeOpts() []store.Option {
+	opts := []store.Option{store.WithParams(w.P)}
+	if w.Metrics {
+		opts = append(opts, store.WithMetrics())
+	}
+	if w.Prefix != "/headers" {
+		opts = append(opts, store.WithStorePrefix(strings.TrimPrefix(w.Prefix, "/")))
+	}
+	return opts
 }
 
 const opBudget = 10 * time.Minute // virtual
@@ -89,11 +107,7 @@ func (w *SW) Open() error {
 	w.opens++
 	_, fin := w.S.Do(fmt.Sprintf("open%d", w.opens), opBudget, func() {
 		var st *store.Store[*H]
-		opts := []store.Option{store.WithParams(w.P)}
-		if w.Metrics {
-			opts = append(opts, store.WithMetrics())
-		}
-		st, err = store.NewStore[*H](w.Disk.Flavour(w.Flav), opts...)
+		st, err = store.NewStore[*H](w.Disk.Flavour(w.Flav), w.storeOpts()...)
 		if err != nil {
 			return
 		}
@@ -191,11 +205,11 @@ func (w *SW) where(h uint64) string {
 	x := w.Ch.At(h)
 	var parts []string
 	if x != nil {
-		if _, ok := w.Disk.Raw("/headers/" + x.Hash().String()); ok {
+		if _, ok := w.Disk.Raw(w.Prefix + "/" + x.Hash().String()); ok {
 			parts = append(parts, "disk-hash")
 		}
 	}
-	if _, ok := w.Disk.Raw(fmt.Sprintf("/headers/%d", h)); ok {
+	if _, ok := w.Disk.Raw(fmt.Sprintf("%s/%d", w.Prefix, h)); ok {
 		parts = append(parts, "disk-index")
 	}
 	if len(parts) == 0 {
